@@ -20,7 +20,7 @@ Tag == IF alive /\ ~alive' THEN Ev("C", "", "")
 
 Step == \/ Start
         \/ \E c \in chans :
-             \/ ACommit(c) \/ AIns(c) \/ RAnchor(c, FALSE) \/ RUp(c) \/ MarkClosed(c, c) \/ Wipe(c)
+             \/ ACommit(c) \/ AIns(c) \/ RAnchor(c, FALSE, TRUE) \/ RUp(c) \/ MarkClosed(c, c) \/ Wipe(c)
              \/ \E k \in Kinds : RLaunch(c, k, TRUE) \/ RCheckpoint(c, k, c) \/ RResolve(c, k) \/ SweepDone(c, k)
 GInit == Init /\ hist = <<>>
 GNext == /\ ~(alive /\ ReferenceOutcome)
